@@ -49,7 +49,9 @@ class SkBase:
         @param      values      values
         @return                 dictionary
         """
-        self.P = SkLearnParameters(**values)
+        params = self.P.to_dict()
+        params.update(values)
+        self.P = SkLearnParameters(**params)
         return self
 
     def __eq__(self, o):
